@@ -239,6 +239,7 @@ func runC09(c *Check) {
 	c.divisionGuards()
 	c.errorsContinue()
 	c.constantPatterns()
+	c.negationRecursionGuarded()
 }
 
 // guardRule runs A-GUARD over the selected functions.
